@@ -390,6 +390,79 @@ def feeding_statements(m: Model, nodes: T.Sequence[T.Any]) -> T.List[Stmt]:
     return out
 
 
+def _walk_flow(n: T.Any, ternary: bool) -> T.Iterator[R.Node]:
+    """walk(), except that with ternary=False the two value branches of a ternary are not entered."""
+    if isinstance(n, R.Node):
+        yield n
+        if n.kind == 'ternary' and not ternary:
+            yield from _walk_flow(n.a[0], ternary)
+            return
+        for x in n.a:
+            yield from _walk_flow(x, ternary)
+    elif isinstance(n, (tuple, list)):
+        for x in n:
+            yield from _walk_flow(x, ternary)
+
+
+def foreach_nodes(m: Model) -> T.List[T.Tuple[str, R.Node]]:
+    """Every foreach statement of the project: (file, node); node.a = (loop variable names, iterated expression, block)."""
+    out: T.List[T.Tuple[str, R.Node]] = []
+
+    def rec(blk: R.Node, f: str) -> None:
+        for st in blk.a[0]:
+            if st.kind == 'if':
+                for _c, b in st.a[0]:
+                    rec(b, f)
+                if st.a[1] is not None:
+                    rec(st.a[1], f)
+            elif st.kind == 'foreach':
+                out.append((f, st))
+                rec(st.a[2], f)
+    for f, tree in m.trees.items():
+        rec(tree, f)
+    return out
+
+
+def reach_names(m: Model, nodes: T.Sequence[T.Any], ternary: bool = True, foreach: bool = False) -> T.Set[str]:
+    """The variables whose value can flow into `nodes`: identifiers and get_variable('name') reads, transitively
+    through the assignments (`=`, `+=`, set_variable('name', ...)) of those variables.
+    ternary=False: data is not followed through the value branches of a ternary expression.
+    foreach=True:  a variable assigned inside a foreach body also depends on what the loop iterates over."""
+    def names(n: T.Any) -> T.Set[str]:
+        out: T.Set[str] = set()
+        for x in _walk_flow(n, ternary):
+            if x.kind == 'id':
+                out.add(x.a[0])
+            elif x.kind == 'call' and x.a[0] == 'get_variable' and x.a[1] and x.a[1][0].kind == 'str':
+                out.add(x.a[1][0].a[0])
+        return out
+    loops = foreach_nodes(m) if foreach else []
+    todo: T.Set[str] = set()
+    for n in nodes:
+        todo |= names(n)
+    done: T.Set[str] = set()
+    while todo:
+        v = todo.pop()
+        if v in done:
+            continue
+        done.add(v)
+        for sts in m.stmts.values():
+            for st in sts:
+                hit = False
+                if st.var == v:
+                    todo |= names(st.node.a[1])
+                    hit = True
+                elif st.call is not None and st.call.a[0] == 'set_variable' and len(st.call.a[1]) == 2 \
+                        and st.call.a[1][0].kind == 'str' and st.call.a[1][0].a[0] == v:
+                    todo |= names(st.call.a[1][1])
+                    hit = True
+                if hit:
+                    for f, lp in loops:
+                        if f == st.file and lp.line <= st.line and st.end_line <= lp.end_line:
+                            todo |= names(lp.a[1])
+    return done
+
+
 def source_nodes(rec: CallRec, what: str) -> T.List[R.Node]:
     if what == 'sources':
         return list(rec.posn[1:]) + [n for k, n in rec.kwn if k == 'sources']
